@@ -94,6 +94,7 @@ def run(ck: Checker):
     eval_fold.fold_database(ck, 'C17.DB')
     ck.rule('C17.SHIP', 'the two shipped database files split into entries under the dictionary layout; a spread of entries (first, longest, an even stride, every key length) decoded by the folded decode_circuit: well formed, inside the basis of the file, computing exactly the table the key spells, key in normal form')
     eval_fold.fold_shipped(ck, 'C17.SHIP')
+    eval_fold.fold_model_lookup(ck, 'C17.MIN')
     ck.floor('C17.SHIP', 2)
     NI = RepoClass(nm, nm.cls('NormalizationInfo'))
 
@@ -176,62 +177,64 @@ def run(ck: Checker):
         ck.check(len(guard) == 1 and all(x in norm(guard[0].test) for x in ('self.negations is None', 'self.permutation is None', 'self.mapping is None')), 'C17.MIRROR', nm, dn,
                  'denormalize refuses uninitialised parameters', 'guard missing', construct='denormalize parameter guard')
 
-    # ---- MIN (folded with a stub store) ----
-    gm = db.func('CircuitsDatabase.get_by_raw_truth_table_model')
+    # (the stub-store version of the fold knows one way of writing the lookup; the in-memory database fold above decides)
+    with ck.soft('C17.MIN (lookups with don\'t-cares folded on an in-memory database)'):
+        # ---- MIN (folded with a stub store) ----
+        gm = db.func('CircuitsDatabase.get_by_raw_truth_table_model')
 
-    class StubDB(Host):
-        def __init__(self, sizes):
-            self.sizes = sizes
-            self.queries = []
+        class StubDB(Host):
+            def __init__(self, sizes):
+                self.sizes = sizes
+                self.queries = []
 
-        def get_by_raw_truth_table(self, tt):
-            key = tuple(tuple(bool(v) for v in r) for r in tt)
-            self.queries.append(key)
-            if any(not isinstance(v, bool) for r in tt for v in r):
-                raise AnalysisError('lookup called with a non-boolean entry')
-            sz = self.sizes.get(key)
-            if sz is None:
-                return None
-            return StubCircuit(it, [], size=sz)
+            def get_by_raw_truth_table(self, tt):
+                key = tuple(tuple(bool(v) for v in r) for r in tt)
+                self.queries.append(key)
+                if any(not isinstance(v, bool) for r in tt for v in r):
+                    raise AnalysisError('lookup called with a non-boolean entry')
+                sz = self.sizes.get(key)
+                if sz is None:
+                    return None
+                return StubCircuit(it, [], size=sz)
 
-    probs = []
-    n_models = 0
-    vals = (False, True, DONT_CARE)
-    import random
-    rnd = random.Random(0)
-    models = [[list(r)] for r in itertools.product(vals, repeat=4)] + [[list(a), list(b)] for a in itertools.product(vals, repeat=2) for b in itertools.product(vals, repeat=2)]
-    for model in models:
-        n_models += 1
-        dc = [(i, j) for i, r in enumerate(model) for j, v in enumerate(r) if isinstance(v, DC)]
-        completions = []
-        for sub in itertools.product((False, True), repeat=len(dc)):
-            t = [list(r) for r in model]
-            for (i, j), v in zip(dc, sub):
-                t[i][j] = v
-            completions.append(tuple(tuple(r) for r in t))
-        for trial in range(2):
-            sizes = {c: rnd.randint(0, 6) for c in completions if rnd.random() < (0.7 if trial == 0 else 0.3)}
-            stub = StubDB(sizes)
-            it.steps = 0
-            try:
-                res = RepoFunc(it, db, gm, bound_self=stub)([list(r) for r in model])
-            except InterpRaise as e:
-                probs.append(f'model {_s(model)}: raises {e.exc_name}')
-                continue
-            if set(stub.queries) != set(completions):
-                probs.append(f'model {_s(model)}: looked up {len(set(stub.queries))} tables, the completions are {len(completions)} (defined entries altered or completions skipped)')
-            elif not sizes:
-                if res is not None:
-                    probs.append(f'model {_s(model)}: nothing stored but a circuit was returned')
-            elif res is None or res.size_ != min(sizes.values()):
-                probs.append(f'model {_s(model)}: stored sizes {sorted(sizes.values())}, returned {None if res is None else res.size_}')
-        if len(probs) > 5:
-            break
-    ck.notes['models_folded'] = n_models
-    ck.check(not probs, 'C17.MIN', db, gm, f'lookup of a model with don\'t-cares tries exactly its completions and returns a smallest stored circuit ({n_models} models x 2 stub stores)',
-             '; '.join(probs[:3]), construct='get_by_raw_truth_table_model arg-min over completions')
-    excl = [c for c in calls_in(gm, 'gates_number')]
-    ck.decide(True if (len(excl) == 1 and excl[0].args and norm(excl[0].args[0]) == gm.args.args[2].arg) else None, 'C17.MIN', db, gm, 'sizes are measured with the caller\'s exclusion list', 'gates_number not called with exclusion_list', construct='get_by_raw_truth_table_model size measure', covered_by='C17.MIN fold with a stub store')
+        probs = []
+        n_models = 0
+        vals = (False, True, DONT_CARE)
+        import random
+        rnd = random.Random(0)
+        models = [[list(r)] for r in itertools.product(vals, repeat=4)] + [[list(a), list(b)] for a in itertools.product(vals, repeat=2) for b in itertools.product(vals, repeat=2)]
+        for model in models:
+            n_models += 1
+            dc = [(i, j) for i, r in enumerate(model) for j, v in enumerate(r) if isinstance(v, DC)]
+            completions = []
+            for sub in itertools.product((False, True), repeat=len(dc)):
+                t = [list(r) for r in model]
+                for (i, j), v in zip(dc, sub):
+                    t[i][j] = v
+                completions.append(tuple(tuple(r) for r in t))
+            for trial in range(2):
+                sizes = {c: rnd.randint(0, 6) for c in completions if rnd.random() < (0.7 if trial == 0 else 0.3)}
+                stub = StubDB(sizes)
+                it.steps = 0
+                try:
+                    res = RepoFunc(it, db, gm, bound_self=stub)([list(r) for r in model])
+                except InterpRaise as e:
+                    probs.append(f'model {_s(model)}: raises {e.exc_name}')
+                    continue
+                if set(stub.queries) != set(completions):
+                    probs.append(f'model {_s(model)}: looked up {len(set(stub.queries))} tables, the completions are {len(completions)} (defined entries altered or completions skipped)')
+                elif not sizes:
+                    if res is not None:
+                        probs.append(f'model {_s(model)}: nothing stored but a circuit was returned')
+                elif res is None or res.size_ != min(sizes.values()):
+                    probs.append(f'model {_s(model)}: stored sizes {sorted(sizes.values())}, returned {None if res is None else res.size_}')
+            if len(probs) > 5:
+                break
+        ck.notes['models_folded'] = n_models
+        ck.check(not probs, 'C17.MIN', db, gm, f'lookup of a model with don\'t-cares tries exactly its completions and returns a smallest stored circuit ({n_models} models x 2 stub stores)',
+                 '; '.join(probs[:3]), construct='get_by_raw_truth_table_model arg-min over completions')
+        excl = [c for c in calls_in(gm, 'gates_number')]
+        ck.decide(True if (len(excl) == 1 and excl[0].args and norm(excl[0].args[0]) == gm.args.args[2].arg) else None, 'C17.MIN', db, gm, 'sizes are measured with the caller\'s exclusion list', 'gates_number not called with exclusion_list', construct='get_by_raw_truth_table_model size measure', covered_by='C17.MIN fold with a stub store')
 
     with ck.soft('C17.DB (database folded end to end)'):
         # ---- KEY ----
